@@ -69,10 +69,11 @@ def invariant(w, workload_has_jumps, bus_log, where):
     return v, len(rows)
 
 
-WLS = [wl("chain3"), wl("diamond"), wl("multitask"), wl("fail_mid"), wl("raise_mid"), wl("continue_on_fail"),
+WLS = [wl("chain3"), wl("diamond"), wl("first_of"), wl("quorum"), wl("multitask"), wl("fail_mid"), wl("raise_mid"), wl("continue_on_fail"),
        wl("skip_stage"), wl("poll", 1), wl("transient", 1, True), wl("synthetic"), wl("synthetic_raise"), wl("or_split_join"),
        wl("fail_branch"), wl("jump_cycle", 2, 1)]
-FAULT_WLS = [wl("chain3"), wl("multitask"), wl("fail_mid"), wl("continue_on_fail"), wl("diamond"), wl("synthetic")]
+FAULT_WLS = [wl("chain3"), wl("multitask"), wl("fail_mid"), wl("continue_on_fail"), wl("diamond"), wl("synthetic"), wl("first_of"),
+             wl("quorum")]
 
 
 def jobs(tier, seed):
@@ -82,6 +83,8 @@ def jobs(tier, seed):
     for spec in FAULT_WLS:
         js.append({"label": f"{spec[0]}{spec[1]}|statement-faults", "wl": spec, "kind": "fault",
                    "all_steps": tier == "thorough"})
+    for spec in [wl("chain3"), wl("diamond"), wl("first_of")]:
+        js.append({"label": f"{spec[0]}{spec[1]}|crash-images|reacting subscriber", "wl": spec, "kind": "crash", "reactor": True})
     if tier == "thorough":
         for spec in WLS:
             js.append({"label": f"{spec[0]}{spec[1]}|crash-images|lifo", "wl": spec, "kind": "crash", "schedule": "lifo"})
@@ -90,6 +93,7 @@ def jobs(tier, seed):
 
 def run_crash(job):
     w = world(events=True)
+    w.reactor = bool(job.get("reactor"))
     workload = make_workload(job["wl"])
     has_jumps = "jump" in job["wl"][0]
     eng = CrashEngine(w, workload, schedule=job.get("schedule", "fifo"))
@@ -120,6 +124,7 @@ class Injected(RuntimeError):
 def run_fault(job):
     """Raise an exception at statement i of every completion step, one fault per run."""
     w = world(events=True)
+    w.reactor = False
     workload = make_workload(job["wl"])
     eng = CrashEngine(w, workload)
     ex = eng.ex
